@@ -102,6 +102,8 @@ type uniqueID struct {
 func (u *uniqueID) sample() [24]byte {
 	u.counter = u.counter.Add(u.counter, common.Big1)
 	var id [24]byte
-	copy(id[:], u.counter.Bytes())
+	// fixed-width (right-aligned) encoding, so that different counters never map to the same ID
+	b := u.counter.Bytes()
+	copy(id[len(id)-len(b):], b)
 	return id
 }
